@@ -281,6 +281,33 @@ def doOp (ctx : Ctx) (line : String) : Ctx × String × String :=
       | some P => specSuccs P (rest == "cap")
       | none => "-"
     (ctx, s!"{v.length} {";".intercalate v}", S)
+  | "dt" =>
+    -- the DrawTable API on its own (see the harness): M = the model, S = plain occurrence counting
+    let toks := (splitSp rest).filter (· ≠ "")
+    let keyOf (n : String) : UInt64 := (0x9E3779B97F4A7C15 : UInt64) * (UInt64.ofNat (n.toNat?.getD 0) + 1)
+    let (t, out, bad) := toks.foldl (fun (acc : DrawTable × String × Bool) tok =>
+      let (t, out, bad) := acc
+      let cmd := (tok.take 1).toString
+      let k := keyOf (tok.drop 1).toString
+      if bad then acc
+      else if cmd == "a" then (match t.add k with | some t' => (t', out, false) | none => (t, out, true))
+      else if cmd == "r" then (match t.remove k with | some t' => (t', out, false) | none => (t, out, true))
+      else if cmd == "q" then (t, out ++ (if t.isThreefold k then "1" else "0"), false)
+      else if cmd == "c" then (([] : DrawTable), out, false)
+      else acc) (([] : DrawTable), "", false)
+    -- specification: a multiset of keys
+    let (ms, sout) := toks.foldl (fun (acc : List UInt64 × String) tok =>
+      let (ms, sout) := acc
+      let cmd := (tok.take 1).toString
+      let k := keyOf (tok.drop 1).toString
+      if cmd == "a" then (k :: ms, sout)
+      else if cmd == "r" then (ms.erase k, sout)
+      else if cmd == "q" then (ms, sout ++ (if ms.count k ≥ 2 then "1" else "0"))
+      else if cmd == "c" then ([], sout)
+      else acc) (([] : List UInt64), "")
+    let stbl : DrawTable := ms.eraseDups.map fun k => (k, ms.count k)
+    (ctx, if bad then "panic" else s!"{if out.isEmpty then "-" else out} tbl={tableStr t}",
+     s!"{if sout.isEmpty then "-" else sout} tbl={tableStr stbl}")
   | "gennull" =>
     -- generation from the null-move clone (side flipped, en passant target and key kept).
     -- S: the legal (capturing) moves of the same placement with the other side to move and NO en
